@@ -13,7 +13,7 @@ import os
 from dataclasses import dataclass, replace
 from typing import Any, Dict, List, Optional, Tuple
 
-from .domains import (GenV, LamV, BoolV, BoundV, ClsV, Const, DictE, ElemE, ExcV, ExtV, Frame, FuncV, IdxE, IterV,
+from .domains import (PartV, GenV, LamV, BoolV, BoundV, ClsV, Const, DictE, ElemE, ExcV, ExtV, Frame, FuncV, IdxE, IterV,
                       LenV, ListE, MethV, ModV, NoneV, NumV, ObjE, Ref, S, State, StrV, TupleV, Unknown, Val)
 from .exchier import ExcHier
 from .front import AnalysisError, ClassInfo, FuncInfo, Program, norm
@@ -990,6 +990,13 @@ class Interp(ModelMixin):
             elif isinstance(v, LamV):
                 for _, x in v.captured:
                     visit_val(x)
+            elif isinstance(v, PartV):
+                if v.func is not None:
+                    visit_val(v.func)
+                for x in v.args:
+                    visit_val(x)
+                for _, x in v.kwargs:
+                    visit_val(x)
             elif isinstance(v, IterV):
                 visit_val(v.src)
                 visit_val(v.start)
@@ -1740,6 +1747,30 @@ class Interp(ModelMixin):
             return self.model_ext(f.name, args, kwargs, st, node)
         if isinstance(f, LamV):
             return self.call_lambda(f, args, kwargs, st, node)
+        if isinstance(f, PartV):
+            if f.kind == 'partial':
+                kw = dict(f.kwargs)
+                kw.update(kwargs)
+                return self.call_value(f.func, list(f.args) + list(args), kw, st, node)
+            if not args:
+                return [(self.exc('TypeError', st, node, f'{f.kind} object called without an operand'), st)]
+            obj = args[0]
+            if f.kind == 'attrgetter' and len(f.args) == 1 and isinstance(f.args[0], Const):
+                outs = [(obj, st)]
+                for part in str(f.args[0].v).split('.'):
+                    nxt = []
+                    for v, s in outs:
+                        nxt.extend([(v, s)] if isinstance(v, Raise) else self.getattr_(v, part, s, node))
+                    outs = nxt
+                return outs
+            if f.kind == 'itemgetter' and len(f.args) == 1:
+                return self.model_getitem(obj, f.args[0], st, node)
+            if f.kind == 'methodcaller' and f.args and isinstance(f.args[0], Const):
+                res = []
+                for m, s in self.getattr_(obj, f.args[0].v, st, node):
+                    res.extend([(m, s)] if isinstance(m, Raise) else self.call_value(m, list(f.args[1:]), dict(f.kwargs), s, node))
+                return res
+            raise AnalysisError(f'{f.kind} with these arguments is not modelled')
         if isinstance(f, Unknown):
             self.note(f'call of unknown value {norm(node.func)}')
             return [(Unknown('call ' + norm(node.func)), st)]
